@@ -181,7 +181,7 @@ def values():
     big = ("0123456789abcdef" * 65536)
     return OrderedDict([
         ("s_empty", ""), ("s_nl", "\n"), ("s_anl", "a\n"), ("s_sp", " a "), ("s_ascii", "hello world"), ("s_crlf", "a\r\nb\r"),
-        ("s_uni", "héllo 世界 \U0001f600"), ("s_big", big),
+        ("s_uni", "héllo 世界 \U0001f600"), ("s_big", big), ("s_bom", "\ufeffid,name\n1,a\n"),
         ("b_empty", b""), ("b_bin", b"\x00\xff\r\n\x1a"), ("b_big", big.encode() + b"\x00"), ("ba", bytearray(b"\x01\x02")),
         ("none", None), ("int", 42), ("dict", {"a": [1, 2], "b": None}), ("obj", Obj("o")),
         ("df", pd.DataFrame({"x": [1, 2], "y": ["a", "b"]})), ("t", T(7)), ("t2", T("s")),
@@ -287,6 +287,10 @@ def apply(s, op):
         for c in reversed(s.registered):  # the other process registers the same codecs in another order
             _register(s, c)
         s.registered = list(reversed(s.registered))
+    elif op[0] == "restart_bare":
+        # another process that has not registered any user codec
+        s.store = _open(s)
+        s.registered = []
     elif op[0] == "store":
         name = op[1]
         v = s.vals[name]
@@ -326,6 +330,14 @@ def apply(s, op):
         v = s.vals[name]
         n0 = len(DECODES)
         r = call(lambda: s.store.fetch_blob(_h(name)))
+        wref = s.written[name]
+        if wref and wref.startswith("user.") and REFNAME[wref] not in s.registered:
+            # the codec that wrote the blob is not registered in this process: a loud refusal, never another codec's reading
+            if not (r[0] == "dds" or (r[0] == "ok" and same(r[1], v))):
+                got = f"{type(r[1]).__name__}" if r[0] == "ok" else f"{r[0]}:{r[1]}"
+                bad(f"fetch|codec_not_registered|written_by={wref}|got={got}",
+                    f"stored {name}={_short(v)} with {wref}, which this process has not registered; fetch -> {_short(r[1]) if r[0] == 'ok' else r}")
+            return probs
         if r[0] != "ok" or not same(r[1], v):
             got = f"{type(r[1]).__name__}" if r[0] == "ok" else f"{r[0]}:{r[1]}"
             bad(f"fetch|{type(v).__name__}|written_by={s.written[name]}|got={got}",
@@ -351,11 +363,12 @@ def key(s):
 
 
 MAY_REFUSE = {"s_surr", "df_mixed"}
+REFNAME = {"user.t1": "t1", "user.t2": "t2", "user.tc": "tc", "user.str": "str", "user.celsius": "cel"}
 WINDOWS = [
     ["s_surr", "df_mixed", "s_ascii"], ["cel", "sur", "t"],
     ["s_ascii", "t", "b_bin"], ["s_empty", "none", "t2"], ["s_uni", "dict", "df"], ["s_big", "ba", "int"],
     ["s_nl", "b_empty", "obj"], ["s_anl", "s_sp", "b_big"], ["s_crlf", "t", "s_ascii"],
-    ["t_sub", "str_enum", "t"], ["bytes_sub", "dict_sub", "s_ascii"], ["t", "obj", "t2"],
+    ["t_sub", "str_enum", "t"], ["bytes_sub", "dict_sub", "s_ascii"], ["t", "obj", "t2"], ["s_bom", "t", "s_uni"],
 ]
 
 
@@ -363,6 +376,8 @@ def alphabet(window, kind):
     ops = [("store", n) for n in window] + [("fetch", n) for n in window]
     regs = ("dup", "t1") if window[:2] == ["t", "obj"] else ("t1", "t2", "str", "tc") if "cel" not in window else ("cel", "t1")
     ops += [("register", c) for c in regs] + [("restart",)]
+    if window in (["s_ascii", "t", "b_bin"], ["s_bom", "t", "s_uni"]):
+        ops.append(("restart_bare",))
     return ops
 
 
